@@ -558,8 +558,14 @@ func (g *Gen) load(st *State, a *Addr, ty types.Type) Val {
 	if a.Root == RGlobal && len(a.Path) == 0 && !g.P.MutableGlobals[a.Glob] && v.K == VScalar && isErrorType(ty) {
 		g.sentinel(v.T)
 	}
-	if a.Root == RGlobal && len(a.Path) == 0 && !g.P.MutableGlobals[a.Glob] && v.K == VScalar {
+	if a.Root == RGlobal && len(a.Path) == 0 && a.Glob.Name() == "init$guard" && v.K == VScalar && g.Fn != nil && g.Fn.Synthetic == "package initializer" {
+		// the runtime runs a package initialiser once: its guard is clear on entry
+		g.Assumed["package initialiser runs once (init$guard clear on entry)"] = true
+		g.assume(Eq(v.T, False))
+	}
+	if a.Root == RGlobal && len(a.Path) == 0 && !g.P.MutableGlobals[a.Glob] && v.K == VScalar && !(g.Fn != nil && g.Fn.Synthetic == "package initializer") && a.Glob.Name() != "init$guard" {
 		// a package-level variable that is only assigned a constant by its initialiser
+		// (not inside the initialiser itself, where it may not be assigned yet)
 		if c, ok := g.P.GlobalInit[a.Glob]; ok {
 			cv := g.constVal(c)
 			if cv.K == VScalar && cv.T != nil && cv.T.S == v.T.S {
